@@ -47,6 +47,57 @@ func (in *Interp) freshBytes(n int, name string) SliceV {
 	return sl
 }
 
+// valKey flattens a value made of terms into a string that identifies it syntactically
+func valKey(v Val) string {
+	switch x := v.(type) {
+	case *Term:
+		return x.S
+	case *ArrayV:
+		r := "["
+		for _, e := range x.E {
+			r += valKey(e) + ","
+		}
+		return r + "]"
+	case *StructV:
+		r := "{"
+		for _, e := range x.F {
+			r += valKey(e) + ","
+		}
+		return r + "}"
+	case StructV:
+		r := "{"
+		for _, e := range x.F {
+			r += valKey(e) + ","
+		}
+		return r + "}"
+	}
+	panic(abort("unmodelled", fmt.Sprintf("valKey of %T", v)))
+}
+
+// memoBytes: n opaque bytes that are a function of key (an encoding of a value: the same value
+// always encodes to the same bytes; nothing else is known about them)
+func (in *Interp) memoBytes(key string, n int, name string) []*Term {
+	k := fmt.Sprintf("%s|%d|%s", name, n, key)
+	if r, ok := in.memoTerms[k]; ok {
+		return r
+	}
+	r := make([]*Term, n)
+	for i := range r {
+		r[i] = in.fresh(fmt.Sprintf("%s[%d]", name, i), BVSort(8))
+	}
+	in.memoTerms[k] = r
+	return r
+}
+
+func (in *Interp) bytesSlice(ts []*Term) SliceV {
+	sl := in.makeSlice(types.Typ[types.Uint8], len(ts), len(ts))
+	arr := sl.Obj.V.(*ArrayV)
+	for i, t := range ts {
+		arr.E[i] = t
+	}
+	return sl
+}
+
 // errOrNil forks: the callee reports an error, or succeeds
 func (in *Interp) errOrNil(what string) Val {
 	if in.ex.DecideFree(in, 2, "err:"+what) == 1 {
@@ -191,6 +242,32 @@ func cryptoStub(in *Interp, fn *ssa.Function, pkg, name string) StubFn {
 					delete(in.bigField, a[0].(Ptr).Obj)
 					in.bigVals[a[0].(Ptr).Obj] = bigVal(in, a[1])
 					return a[0]
+				}
+			case "FillBytes":
+				return func(in *Interp, fn *ssa.Function, a []Val) Val {
+					buf := a[1].(SliceV)
+					p := a[0].(Ptr)
+					if t, ok := in.bigField[p.Obj]; ok {
+						// big-endian encoding of a field value: the same bytes Element.Marshal produces
+						ts := in.memoBytes(t.S, buf.Len, "elembytes")
+						for i := 0; i < buf.Len; i++ {
+							in.store(in.sliceElemPtr(buf, i), ts[i])
+						}
+						return buf
+					}
+					x := bigVal(in, a[0])
+					if !x.IsConst {
+						panic(abort("unmodelled", "big.Int.FillBytes of a symbolic machine integer"))
+					}
+					for i := 0; i < buf.Len; i++ {
+						sh := uint(8 * (buf.Len - 1 - i))
+						b := uint64(0)
+						if sh < 64 {
+							b = (x.C >> sh) & 0xff
+						}
+						in.store(in.sliceElemPtr(buf, i), BVConst(b, 8))
+					}
+					return buf
 				}
 			case "SetUint64", "SetInt64":
 				return func(in *Interp, fn *ssa.Function, a []Val) Val {
@@ -515,14 +592,16 @@ func cryptoStub(in *Interp, fn *ssa.Function, pkg, name string) StubFn {
 					if !ok {
 						panic(abort("unmodelled", "no Bytes constant in "+pkg))
 					}
+					// the canonical encoding is a function of the value
+					ts := in.memoBytes(in.frRead(a[0]).S, n, "elembytes")
 					if name == "Bytes" {
 						arr := &ArrayV{E: make([]Val, n)}
 						for i := range arr.E {
-							arr.E[i] = in.fresh(fmt.Sprintf("elembytes[%d]", i), BVSort(8))
+							arr.E[i] = ts[i]
 						}
 						return arr
 					}
-					return in.freshBytes(n, "elembytes")
+					return in.bytesSlice(ts)
 				}
 			case "SetBytes", "SetBytesCanonical", "SetBigInt", "SetString", "SetInterface", "Exp", "Sqrt", "Halve", "BigInt":
 				return func(in *Interp, fn *ssa.Function, a []Val) Val {
@@ -533,6 +612,26 @@ func cryptoStub(in *Interp, fn *ssa.Function, pkg, name string) StubFn {
 							delete(in.bigVals, bp.Obj)
 						}
 						return a[1]
+					}
+					if name == "SetBytes" || name == "SetBytesCanonical" {
+						// a function of the byte string (length and contents)
+						if sl, ok := a[1].(SliceV); ok {
+							key := ""
+							for i := 0; i < sl.Len; i++ {
+								key += valKey(in.sliceGet(sl, i)) + ","
+							}
+							k := "SetBytes|" + key
+							ts, ok := in.memoTerms[k]
+							if !ok {
+								ts = []*Term{in.cfg.Field.Fresh(in, "elem.SetBytes", wordW(in.frArr(a[0])))}
+								in.memoTerms[k] = ts
+							}
+							in.frWrite(a[0].(Ptr), ts[0])
+							if fn.Signature.Results().Len() == 2 {
+								return TupleV{a[0], in.errOrNil("Element." + name)}
+							}
+							return a[0]
+						}
 					}
 					if name == "SetBigInt" {
 						if bp, ok := a[1].(Ptr); ok && bp.Obj != nil {
@@ -630,12 +729,13 @@ func cryptoStub(in *Interp, fn *ssa.Function, pkg, name string) StubFn {
 					if !ok {
 						panic(abort("unmodelled", "no size constant "+cn+" in "+pkg))
 					}
+					ts := in.memoBytes(valKey(in.load(a[0].(Ptr))), n, "pointbytes."+name)
 					if name == "Marshal" {
-						return in.freshBytes(n, "pointbytes")
+						return in.bytesSlice(ts)
 					}
 					arr := &ArrayV{E: make([]Val, n)}
 					for i := range arr.E {
-						arr.E[i] = in.fresh(fmt.Sprintf("pointbytes[%d]", i), BVSort(8))
+						arr.E[i] = ts[i]
 					}
 					return arr
 				}
